@@ -7,6 +7,9 @@ CONSTANTS
   ModeOf <- MCModeOf
   RulesKey = "item"
   IdsIdentifyContent = FALSE
+  IncOf <- MCIncOf
+  KeepHigherIncarnation = FALSE
+  StateEarly = FALSE
   InitScenarios = {"fresh"}
   InitDocs <- DocsRules
   MaxReconf = 2
